@@ -3,6 +3,7 @@
 package vstore
 
 import (
+	"runtime"
 	"encoding/base64"
 	"fmt"
 	"os"
@@ -298,7 +299,11 @@ func exerciseSets(d *store.Dir, root string) (msg string) {
 		base := filepath.Join(root, fmt.Sprintf("ex-%d", id))
 		os.Mkdir(base, 0o700)
 		dd := &store.Dir{BaseDir: base, Default: id, Params: d.Params}
-		if err := dd.AddUser("probe", "right-password", true); err != nil {
+		// written with one CPU available, verified with all of them: what a set computes is what the file says, not what the host has
+		procs := runtime.GOMAXPROCS(1)
+		err := dd.AddUser("probe", "right-password", true)
+		runtime.GOMAXPROCS(procs)
+		if err != nil {
 			vlib.Class("accepted-set:fails-with-error")
 			continue
 		}
